@@ -782,7 +782,7 @@ iploop:
 
 		if c.app.config.EnableIPValidation {
 			// Skip validation if IP is clearly not IPv4/IPv6, otherwise validate without allocations
-			if (!v6 && !v4) || (v6 && !utils.IsIPv6(s)) || (v4 && !utils.IsIPv4(s)) {
+			if (!v6 && !v4) || (v6 && !utils.IsIPv6(s)) || (v4 && !v6 && !utils.IsIPv4(s)) {
 				continue iploop
 			}
 		}
@@ -831,7 +831,7 @@ func (c *DefaultCtx) extractIPFromHeader(header string) string {
 			s := utils.TrimRight(headerValue[i:j], ' ')
 
 			if c.app.config.EnableIPValidation {
-				if (!v6 && !v4) || (v6 && !utils.IsIPv6(s)) || (v4 && !utils.IsIPv4(s)) {
+				if (!v6 && !v4) || (v6 && !utils.IsIPv6(s)) || (v4 && !v6 && !utils.IsIPv4(s)) {
 					continue iploop
 				}
 			}
